@@ -11,6 +11,13 @@
 //    the san flavour or damage a canary
 //  * every case is executed twice by the same generic lambda: once with Std (libstdc++), once with
 //    Etl (tetl, inside mc::guarded); the two observation vectors must be equal
+//  * sub-range mode (c06::g_pad = 2, jobs "sub/..."): every caller range is the middle of a larger block
+//    with two distinct sentinel elements before and two after it; the wrappers then allow (and really
+//    execute) accesses to the sentinels, so an algorithm that steps outside [first,last) but stays inside
+//    the allocation is seen by content: a sentinel that was modified/moved-from (class .../outside_modified)
+//    or handed to a predicate (its tag is never allowed: .../foreign_argument), or a wrong result
+//  * E's own operator== / operator< are counted: the overloads taking a predicate/comparator must not use them
+//  * M is the move-only twin of E (c06_mutate.cpp with -DC06_MOVEONLY)
 #pragma once
 #include "mc.hpp"
 
@@ -21,6 +28,7 @@
 #include <etl/utility.hpp>
 
 #include <algorithm>
+#include <cstring>
 #include <functional>
 #include <iterator>
 #include <map>
@@ -44,16 +52,24 @@ struct Probe {
     std::uint64_t oob_step{0};   // wrapper moved outside [lo,hi]
     std::uint64_t oob_write{0};  // output wrapper assigned outside [lo,hi)
     std::uint64_t reread{0};     // single-pass wrapper used at a position that was already passed
+    std::uint64_t op_calls{0};   // calls of the element's own operator== / operator<
+    std::uint64_t sentinel_bad{0}; // sub-range mode: sentinel elements around a range that no longer hold their value
     int first_bad_key{0}, first_bad_tag{0};
 
     void begin()
     {
         std::memset(expect, -99, sizeof expect);
-        pred_calls = pred_bad = oob_deref = oob_step = oob_write = reread = 0;
+        pred_calls = pred_bad = oob_deref = oob_step = oob_write = reread = op_calls = sentinel_bad = 0;
     }
-    bool clean() const { return pred_bad == 0 && oob_deref == 0 && oob_step == 0 && oob_write == 0 && reread == 0; }
+    bool clean() const
+    {
+        return pred_bad == 0 && oob_deref == 0 && oob_step == 0 && oob_write == 0 && reread == 0 && sentinel_bad == 0;
+    }
 };
 inline Probe g;
+
+/// sub-range mode: number of sentinel elements on each side of every caller range (0 or 2); set once per job
+inline std::size_t g_pad = 0;
 
 // ------------------------------------------------------------------------------------------
 // element
@@ -108,6 +124,7 @@ inline void arg(E const& e)
 }
 inline bool operator==(E const& a, E const& b)
 {
+    ++g.op_calls;
     arg(a);
     arg(b);
     return a.key == b.key;
@@ -115,8 +132,57 @@ inline bool operator==(E const& a, E const& b)
 inline bool operator!=(E const& a, E const& b) { return !(a == b); }
 inline bool operator<(E const& a, E const& b)
 {
+    ++g.op_calls;
     arg(a);
     arg(b);
+    return a.key < b.key;
+}
+
+/// move-only twin of E: same key/tag semantics, moving marks the source, copying does not exist.
+/// Converts to E (a harness-side copy of key and tag) so that the logging predicates/comparators, which take
+/// E const&, accept it unchanged; the libraries never name E, so they cannot use the conversion.
+struct M {
+    signed char key{0};
+    signed char tag{0};
+
+    constexpr M() = default;
+    constexpr M(int k, int t) : key(static_cast<signed char>(k)), tag(static_cast<signed char>(t)) { }
+    explicit constexpr M(E const& e) : key(e.key), tag(e.tag) { }
+    M(M const&)                    = delete;
+    auto operator=(M const&) -> M& = delete;
+    constexpr M(M&& o) noexcept : key(o.key), tag(o.tag)
+    {
+        o.key = -7;
+        o.tag = -7;
+    }
+    constexpr auto operator=(M&& o) noexcept -> M&
+    {
+        auto const k = o.key;
+        auto const t = o.tag;
+        o.key        = -7;
+        o.tag        = -7;
+        if (this != &o) {
+            key = k;
+            tag = t;
+        }
+        return *this;
+    }
+    constexpr operator E() const { return E{key, tag}; }
+    bool same(E const& o) const { return key == o.key && tag == o.tag; }
+};
+inline bool operator==(M const& a, M const& b)
+{
+    ++g.op_calls;
+    arg(E(a));
+    arg(E(b));
+    return a.key == b.key;
+}
+inline bool operator!=(M const& a, M const& b) { return !(a == b); }
+inline bool operator<(M const& a, M const& b)
+{
+    ++g.op_calls;
+    arg(E(a));
+    arg(E(b));
     return a.key < b.key;
 }
 
@@ -340,15 +406,9 @@ struct out_tag : std::output_iterator_tag, etl::output_iterator_tag { };
 template <typename T>
 T& outside()
 {
-    static T d = [] {
-        if constexpr (std::is_same_v<T, E>) {
-            return E{-9, -9};
-        } else {
-            return T(-999);
-        }
-    }();
-    if constexpr (std::is_same_v<T, E>) {
-        d = E{-9, -9};
+    static T d{};
+    if constexpr (std::is_constructible_v<T, E const&>) {
+        d = T(E{-9, -9});
     } else {
         d = T(-999);
     }
@@ -590,27 +650,83 @@ struct OutIt {
 // ------------------------------------------------------------------------------------------
 // buffers
 // ------------------------------------------------------------------------------------------
+/// i-th sentinel element of sub-range mode (0,1 before the range, 2,3 after it).  The ones adjacent to the range
+/// carry the middle key 1 (smaller and greater than something under every comparator, satisfies key==1, odd),
+/// the outer ones the extreme keys; the tags 50..53 are never allowed as predicate arguments.
+inline constexpr E sentinel_elem[4] = {E{0, 50}, E{1, 51}, E{1, 52}, E{2, 53}};
+inline constexpr int sentinel_int[4] = {1000003, 1000033, 1000037, 1000039};
+
+template <typename T>
+T make_sentinel(std::size_t i)
+{
+    if constexpr (std::is_constructible_v<T, E const&>) {
+        return T(sentinel_elem[i]);
+    } else {
+        return T(sentinel_int[i]);
+    }
+}
+template <typename T>
+bool is_sentinel(T const& x, std::size_t i)
+{
+    if constexpr (std::is_constructible_v<T, E const&>) {
+        return x.same(sentinel_elem[i]);
+    } else {
+        return x == T(sentinel_int[i]);
+    }
+}
+
+/// a caller-supplied range: an exact-size block, or (sub-range mode) the middle of a block with sentinels around it
 template <typename T>
 struct Buf {
+    std::size_t pad;
+    std::size_t len;
     mc::GuardedBlock<T> blk;
     T* front{nullptr}; // single-pass frontier
 
-    [[gnu::noinline]] explicit Buf(std::vector<T> const& s) : blk(s.size())
+    template <typename U>
+    [[gnu::noinline]] explicit Buf(std::vector<U> const& s) : pad(g_pad), len(s.size()), blk(s.size() + 2 * g_pad)
     {
-        for (std::size_t i = 0; i < s.size(); ++i) {
-            ::new (static_cast<void*>(blk.data() + i)) T(s[i]);
-            if constexpr (std::is_same_v<T, E>) { allow(s[i]); }
+        for (std::size_t i = 0; i < len; ++i) {
+            ::new (static_cast<void*>(b() + i)) T(s[i]);
+            if constexpr (std::is_same_v<U, E>) { allow(s[i]); }
         }
-        front = blk.data();
+        sentinels();
     }
-    [[gnu::noinline]] Buf(std::size_t n, T const& fill) : blk(n)
+    template <typename U>
+    [[gnu::noinline]] Buf(std::size_t n, U const& fill) : pad(g_pad), len(n), blk(n + 2 * g_pad)
     {
-        for (std::size_t i = 0; i < n; ++i) { ::new (static_cast<void*>(blk.data() + i)) T(fill); }
-        front = blk.data();
+        for (std::size_t i = 0; i < n; ++i) { ::new (static_cast<void*>(b() + i)) T(fill); }
+        sentinels();
     }
-    T* b() { return blk.data(); }
-    T* e() { return blk.data() + blk.size(); }
-    std::size_t size() const { return blk.size(); }
+    /// the sentinels are checked whether or not the case looks at the buffer afterwards
+    ~Buf() { check(); }
+
+    void sentinels()
+    {
+        for (std::size_t i = 0; i < pad; ++i) {
+            ::new (static_cast<void*>(blk.data() + i)) T(make_sentinel<T>(i));
+            ::new (static_cast<void*>(e() + i)) T(make_sentinel<T>(2 + i));
+        }
+        front = b();
+    }
+    [[gnu::noinline]] void check()
+    {
+        for (std::size_t i = 0; i < pad; ++i) {
+            if (!is_sentinel(blk.data()[i], i)) { ++g.sentinel_bad; }
+            if (!is_sentinel(e()[i], 2 + i)) { ++g.sentinel_bad; }
+        }
+        for (std::size_t i = 0; i < pad; ++i) { // restore: one damaged sentinel is counted once
+            blk.data()[i] = make_sentinel<T>(i);
+            e()[i]        = make_sentinel<T>(2 + i);
+        }
+    }
+    T* b() { return blk.data() + pad; }
+    T* e() { return blk.data() + pad + len; }
+    /// what the checked wrappers may touch: the range itself, in sub-range mode the whole block (the access is
+    /// then executed, and judged by its effect)
+    T* lo() { return blk.data(); }
+    T* hi() { return blk.data() + blk.size(); }
+    std::size_t size() const { return len; }
 };
 
 struct Std {
@@ -646,7 +762,7 @@ struct WrapF {
     template <typename L, typename T>
     static It<T, Rank> at(L, Buf<T>& b, std::size_t i)
     {
-        return It<T, Rank>{b.b() + i, b.b(), b.e()};
+        return It<T, Rank>{b.b() + i, b.lo(), b.hi()};
     }
     template <typename T>
     static long off(Buf<T>& b, It<T, Rank> it)
@@ -665,7 +781,7 @@ struct InF {
     template <typename L, typename T>
     static InIt<T> at(L, Buf<T>& b, std::size_t i)
     {
-        return InIt<T>{b.b() + i, b.b(), b.e(), &b.front};
+        return InIt<T>{b.b() + i, b.lo(), b.hi(), &b.front};
     }
     template <typename T>
     static long off(Buf<T>& b, InIt<T> it)
@@ -681,7 +797,7 @@ struct OutF {
     template <typename L, typename T>
     static OutIt<T> at(L, Buf<T>& b, std::size_t i)
     {
-        return OutIt<T>{b.b() + i, b.b(), b.e()};
+        return OutIt<T>{b.b() + i, b.lo(), b.hi()};
     }
     template <typename T>
     static long off(Buf<T>& b, OutIt<T> it)
@@ -699,7 +815,7 @@ struct RevF {
     template <typename L, typename T>
     static auto at(L, Buf<T>& b, std::size_t i)
     {
-        auto const base = It<T, 3>{b.e() - i, b.b(), b.e()};
+        auto const base = It<T, 3>{b.e() - i, b.lo(), b.hi()};
         if constexpr (L::is_etl) {
             return etl::reverse_iterator<It<T, 3>>(base);
         } else {
@@ -734,7 +850,42 @@ struct Obs {
     }
     void sep() { num(-77777); }
     void elem(E const& e) { num(ebase + (int(e.key) + 50) * 200 + (int(e.tag) + 50)); }
-    void elem(int x) { num(x); }
+    void elem(M const& e) { num(ebase + (int(e.key) + 50) * 200 + (int(e.tag) + 50)); }
+    /// arithmetic elements (c06_misc.cpp, c06_trivial.cpp): 64-bit and floating-point values keep every bit
+    template <typename T>
+        requires std::is_arithmetic_v<T>
+    void elem(T x)
+    {
+        if constexpr (std::is_floating_point_v<T>) {
+            dbl(static_cast<double>(x));
+        } else if constexpr (sizeof(T) > 4) {
+            wide(static_cast<long long>(x));
+        } else {
+            num(static_cast<long>(x));
+        }
+    }
+    /// any other element type provides observe(Obs&, T const&) (found by ADL)
+    template <typename T>
+        requires requires(Obs& o, T const& t) { observe(o, t); }
+    void elem(T const& t)
+    {
+        observe(*this, t);
+    }
+    /// 64-bit results (init types wider than the element type): two slots, never mistaken for an element
+    void wide(long long x)
+    {
+        auto const u = static_cast<std::uint64_t>(x);
+        num(-88888); // marker (only for show())
+        num(static_cast<std::int32_t>(static_cast<std::uint32_t>(u >> 32)));
+        num(static_cast<std::int32_t>(static_cast<std::uint32_t>(u & 0xffffffffu)));
+    }
+    /// floating-point results are compared bit for bit
+    void dbl(double d)
+    {
+        std::uint64_t u = 0;
+        std::memcpy(&u, &d, sizeof u);
+        wide(static_cast<long long>(u));
+    }
     template <typename T>
     [[gnu::noinline]] void buf(Buf<T>& b, std::size_t from = 0, std::size_t to = std::size_t(-1))
     {
@@ -744,7 +895,8 @@ struct Obs {
         if (!b.blk.intact()) { canary = false; }
     }
     /// content as a multiset (order masked)
-    [[gnu::noinline]] void bag(Buf<E>& b, std::size_t from = 0, std::size_t to = std::size_t(-1))
+    template <typename T>
+    [[gnu::noinline]] void bag(Buf<T>& b, std::size_t from = 0, std::size_t to = std::size_t(-1))
     {
         if (to > b.size()) { to = b.size(); }
         sep();
@@ -762,8 +914,8 @@ struct Obs {
         for (std::size_t i = from; i < to; ++i) { elem(F::reversed ? b.b()[b.size() - 1 - i] : b.b()[i]); }
         if (!b.blk.intact()) { canary = false; }
     }
-    template <typename F>
-    void bagv(Buf<E>& b, std::size_t from, std::size_t to)
+    template <typename F, typename T>
+    void bagv(Buf<T>& b, std::size_t from, std::size_t to)
     {
         if (to > b.size()) { to = b.size(); }
         sep();
@@ -785,6 +937,12 @@ struct Obs {
         for (int i = 0; i < n; ++i) {
             if (v[i] == -77777) {
                 s += " |";
+            } else if (v[i] == -88888 && i + 2 < n) {
+                auto const u = (static_cast<std::uint64_t>(static_cast<std::uint32_t>(v[i + 1])) << 32) | static_cast<std::uint32_t>(v[i + 2]);
+                double d     = 0;
+                std::memcpy(&d, &u, sizeof d);
+                s += cat(" ", static_cast<long long>(u), "(as double ", d, ")");
+                i += 2;
             } else if (v[i] >= ebase) {
                 int const k = (v[i] - ebase) / 200 - 50;
                 int const t = (v[i] - ebase) % 200 - 50;
@@ -893,16 +1051,20 @@ struct Ctx {
         if (is_nontrivial) { ++nontrivial; }
         ++per_subject[subject];
         if (r.outcome_set.size() < (1u << 17)) { r.outcome(mc::hash_mix(mc::fnv1a(subject, std::strlen(subject)), oe.hash())); }
+        // the overloads that take a predicate/comparator must not fall back on the element's own operators
+        bool const ops_forbidden = std::strstr(subject, ",pred") != nullptr || std::strstr(subject, ",comp") != nullptr;
+        bool const ops_ok        = !ops_forbidden || (ps.op_calls == 0 && pe.op_calls == 0);
         if (ps.clean() && os.canary && !os.overflow && !oe.overflow && t == mc::Trap::none && os == oe && pe.clean() && oe.canary
-            && x.san0 == x.san1) {
+            && x.san0 == x.san1 && ops_ok) {
             return;
         }
 
-        if (!ps.clean() || !os.canary || os.overflow || oe.overflow) {
+        if (!ps.clean() || !os.canary || os.overflow || oe.overflow || (ops_forbidden && ps.op_calls != 0)) {
             // the reference run itself tripped a probe: the case is not a valid input or the harness is wrong
             r.violation("C06", cat("harness-self-check:", subject), cls(), kase(),
                 cat("reference run tripped a probe: pred_bad=", ps.pred_bad, " oob_deref=", ps.oob_deref, " oob_step=", ps.oob_step,
-                    " oob_write=", ps.oob_write, " reread=", ps.reread, " canary=", os.canary, " obs_overflow=", os.overflow || oe.overflow));
+                    " oob_write=", ps.oob_write, " reread=", ps.reread, " sentinel_bad=", ps.sentinel_bad, " op_calls=", ps.op_calls,
+                    " canary=", os.canary, " obs_overflow=", os.overflow || oe.overflow));
             return;
         }
         if (t != mc::Trap::none) {
@@ -914,6 +1076,14 @@ struct Ctx {
             r.violation("C06", subject, cat(cls(), "/foreign_argument"), kase(),
                 cat(pe.pred_bad, " of ", pe.pred_calls, " arguments of the predicate/comparison/operation are not elements of the given ranges; first: ",
                     show(E{pe.first_bad_key, pe.first_bad_tag})));
+        }
+        if (pe.sentinel_bad != 0) {
+            r.violation("C06", subject, cat(cls(), "/outside_modified"), kase(),
+                cat(pe.sentinel_bad, " of the elements next to (but outside) the given ranges were assigned to or moved from"));
+        }
+        if (ops_forbidden && pe.op_calls != 0) {
+            r.violation("C06", subject, cat(cls(), "/own_operator_used"), kase(),
+                cat("the element type's operator== / operator< was called ", pe.op_calls, " times although a predicate/comparator was passed"));
         }
         if (pe.reread != 0) {
             r.violation("C06", subject, cat(cls(), "/single_pass_reread"), kase(),
@@ -994,8 +1164,8 @@ T& at_view(Buf<T>& b, std::size_t i)
 {
     return F::reversed ? b.b()[b.size() - 1 - i] : b.b()[i];
 }
-template <typename F, typename Cm>
-bool sorted_view(Buf<E>& b, std::size_t from, std::size_t to)
+template <typename F, typename Cm, typename T>
+bool sorted_view(Buf<T>& b, std::size_t from, std::size_t to)
 {
     for (std::size_t i = from; i + 1 < to; ++i) {
         if (Cm::plain(at_view<F>(b, i + 1), at_view<F>(b, i))) { return false; }
@@ -1039,6 +1209,18 @@ inline Bounds bounds(mc::Reporter& r, int qL, int qM, int tL, int tM, int sanL =
     (void)sanL;
     (void)sanM;
     return {tL, tM};
+}
+
+/// wraps a job body: the same enumeration in sub-range mode (see the top of this file)
+template <typename Fn>
+auto sub(Fn fn)
+{
+    return [fn](mc::Reporter& r) {
+        g_pad = 2;
+        fn(r);
+        r.sample("sub-range mode: every range above is the middle of a larger block, sentinels 0#50 1#51 | range | 1#52 2#53 "
+                 "(ints: 1000003 1000033 | range | 1000037 1000039); wrappers may reach the sentinels");
+    };
 }
 
 } // namespace c06
